@@ -14,17 +14,17 @@ import (
 
 // Trace10 is one 1-D transmission or one writer-side check.
 type Trace10 struct {
-	Kind    string `json:"kind"`              // "writer" | "writer-wrongcheck" | "reader" | "addon" | "c128" | "c93" | "c128writer" | "c93writer"
-	Sym     string `json:"sym"`               // ean13 | ean8 | upca | upce | code128 | code93
-	Content string `json:"content"`           // digits (or text for code128/93 writer checks)
-	Pos     int    `json:"pos,omitempty"`     // substitution position (-1: none)
-	Repl    int    `json:"repl,omitempty"`    // replacement digit / symbol value
-	Vals    []int  `json:"vals,omitempty"`    // Code 128 / Code 93 symbol values (start..check), before the fault
-	Addon   string `json:"addon,omitempty"`   // add-on digits
-	Par     int    `json:"parity,omitempty"`  // add-on parity pattern
-	Scale   int    `json:"scale,omitempty"`   // 0: row handed to DecodeRow; >0: rendered image at this scale
-	Hints   int    `json:"hints,omitempty"`   // optional decode hints passed to the reader, bit mask: 1 TRY_HARDER, 2 result-point callback, 4 ALLOWED_EAN_EXTENSIONS {0,2,5}, 8 POSSIBLE_FORMATS (all six), 16 ASSUME_GS1
-	FixK    bool   `json:"fixk,omitempty"`    // Code 93: after the substitution, K is recomputed over data + C (only C fails to verify)
+	Kind    string `json:"kind"`             // "writer" | "writer-wrongcheck" | "reader" | "addon" | "c128" | "c93" | "c128writer" | "c93writer"
+	Sym     string `json:"sym"`              // ean13 | ean8 | upca | upce | code128 | code93
+	Content string `json:"content"`          // digits (or text for code128/93 writer checks)
+	Pos     int    `json:"pos,omitempty"`    // substitution position (-1: none)
+	Repl    int    `json:"repl,omitempty"`   // replacement digit / symbol value
+	Vals    []int  `json:"vals,omitempty"`   // Code 128 / Code 93 symbol values (start..check), before the fault
+	Addon   string `json:"addon,omitempty"`  // add-on digits
+	Par     int    `json:"parity,omitempty"` // add-on parity pattern
+	Scale   int    `json:"scale,omitempty"`  // 0: row handed to DecodeRow; >0: rendered image at this scale
+	Hints   int    `json:"hints,omitempty"`  // optional decode hints passed to the reader, bit mask: 1 TRY_HARDER, 2 result-point callback, 4 ALLOWED_EAN_EXTENSIONS {0,2,5}, 8 POSSIBLE_FORMATS (all six), 16 ASSUME_GS1
+	FixK    bool   `json:"fixk,omitempty"`   // Code 93: after the substitution, K is recomputed over data + C (only C fails to verify)
 	// Prev lists symbols read earlier on the same reader instances (instance-reuse history)
 	Prev []*Trace10 `json:"prev,omitempty"`
 }
@@ -99,6 +99,10 @@ func freshReader(sym string) gozxing.Reader {
 		return oned.NewCode128Reader()
 	case "code93":
 		return oned.NewCode93Reader()
+	case "code39":
+		return oned.NewCode39ReaderWithCheckDigitFlag(true)
+	case "code39ext":
+		return oned.NewCode39ReaderWithFlags(true, true)
 	case "multi":
 		return oned.NewMultiFormatUPCEANReader(nil)
 	}
@@ -283,11 +287,11 @@ func toArray(row []bool, quiet int) *gozxing.BitArray {
 
 type readOut struct {
 	format gozxing.BarcodeFormat
-	text string
-	ext  string
-	raw  []byte
-	err  error
-	pan  interface{}
+	text   string
+	ext    string
+	raw    []byte
+	err    error
+	pan    interface{}
 }
 
 // read sends a row to the real reader: scale 0 = DecodeRow on a BitArray
@@ -554,7 +558,7 @@ func exec10(tr *Trace10, probe func(string)) (string, *fail) {
 			probe("probe.addon_rejected")
 		}
 		return "ok", nil
-	case "c128", "c93":
+	case "c128", "c93", "c39":
 		return execChar(tr, probe)
 	case "c128writer", "c93writer":
 		return execCharWriter(tr, probe)
@@ -621,6 +625,9 @@ func judgeUPCEAN(tr *Trace10, o readOut, carried string, ok bool, probe func(str
 // ---------------------------------------------------------------- Code 128 / Code 93
 
 func charRow(kind string, vals []int) ref.Row {
+	if kind == "c39" {
+		return ref.Code39Row(vals, 2+len(vals)%2) // wide elements of 2 or 3 modules
+	}
 	if kind == "c128" {
 		return ref.Code128Row(append(append([]int(nil), vals...), 106))
 	}
@@ -632,6 +639,9 @@ func charRow(kind string, vals []int) ref.Row {
 
 func charVerifies(kind string, vals []int) bool {
 	n := len(vals)
+	if kind == "c39" {
+		return n >= 1 && ref.Code39Check(vals[:n-1]) == vals[n-1]
+	}
 	if kind == "c128" {
 		return n >= 2 && ref.Code128Check(vals[:n-1]) == vals[n-1]
 	}
@@ -658,10 +668,17 @@ func execChar(tr *Trace10, probe func(string)) (string, *fail) {
 	} else {
 		probe("fault.none(control)")
 	}
-	sym := map[string]string{"c128": "code128", "c93": "code93"}[tr.Kind]
+	sym := map[string]string{"c128": "code128", "c93": "code93", "c39": tr.Sym}[tr.Kind]
 	o := read(newReader(sym), charRow(tr.Kind, vals), tr.Scale)
 	ok := charVerifies(tr.Kind, vals)
 	what := fmt.Sprintf("%s symbol %v (substitution pos %d -> %d, scale %d)", sym, vals, tr.Pos, tr.Repl, tr.Scale)
+	if o.pan != nil && tr.Kind == "c39" && ok && !faulted {
+		// a crash on a symbol whose check character verifies says nothing about
+		// check characters (on the unchanged tree: extended-mode text ending in a
+		// shift character, "Z/", indexes past the end): counted, not C10's business
+		probe("probe.valid_symbol_crashes_reader(outside_C10)")
+		return "skip:valid symbol crashes the reader", nil
+	}
 	if o.pan != nil {
 		return "", &fail{"reader/panic", what + fmt.Sprintf(": reader panicked: %v", o.pan)}
 	}
@@ -674,6 +691,7 @@ func execChar(tr *Trace10, probe func(string)) (string, *fail) {
 				return "", &fail{"reader/rejects-valid-check", what + ": check characters verify by the standard's formula, the reader reports a checksum error"}
 			}
 			probe("probe.valid_symbol_not_read(outside_C10)")
+			probe("probe.valid_symbol_not_read(outside_C10)." + tr.Kind)
 			return "skip:valid symbol not read", nil
 		}
 		probe("probe.invalid_symbol_rejected")
@@ -697,6 +715,7 @@ func execChar(tr *Trace10, probe func(string)) (string, *fail) {
 	}
 	if tr.FixK && ok {
 		probe("probe.valid_symbol_read")
+		probe("probe.valid_symbol_read." + tr.Kind)
 		return "ok", nil
 	}
 	if tr.FixK {
@@ -706,6 +725,7 @@ func execChar(tr *Trace10, probe func(string)) (string, *fail) {
 		return "", &fail{"reader/accepts-failed-check", what + fmt.Sprintf(": a single-character substitution was read as %q", o.text)}
 	}
 	probe("probe.valid_symbol_read")
+	probe("probe.valid_symbol_read." + tr.Kind)
 	return "ok", nil
 }
 
@@ -940,8 +960,8 @@ func C10() *kit.Spec {
 		Components: map[string]string{
 			"oned writers (EAN-13, EAN-8, UPC-A, UPC-E, Code 128, Code 93)": "real",
 			"oned readers (same + add-on support)":                          "real",
-			"bar/space row medium, rendering":                              "simulated (harness)",
-			"onedref (check digits, patterns, symbol constructor)":         "reference model / stub sender (harness)",
+			"bar/space row medium, rendering":                               "simulated (harness)",
+			"onedref (check digits, patterns, symbol constructor)":          "reference model / stub sender (harness)",
 		},
 		FaultKinds:  []string{"none(control)", "digit", "char", "char+k_consistent", "addon"},
 		SimTimeNote: "none: no timers; logical steps = symbols transmitted",
@@ -959,7 +979,7 @@ func C10() *kit.Spec {
 				jobHints = r.Intn(32)
 			}
 			do := func(tr *Trace10, hash bool) bool {
-				if tr.Kind == "reader" || tr.Kind == "addon" || tr.Kind == "c128" || tr.Kind == "c93" {
+				if tr.Kind == "reader" || tr.Kind == "addon" || tr.Kind == "c128" || tr.Kind == "c93" || tr.Kind == "c39" {
 					tr.Hints = jobHints
 					if jobHints != 0 {
 						probe("probe.reader_given_optional_hints")
@@ -972,11 +992,11 @@ func C10() *kit.Spec {
 					report10(c, tr, f)
 					f = nil
 				}
-				if f != nil && (tr.Kind == "reader" || tr.Kind == "addon" || tr.Kind == "c128" || tr.Kind == "c93") {
+				if f != nil && (tr.Kind == "reader" || tr.Kind == "addon" || tr.Kind == "c128" || tr.Kind == "c93" || tr.Kind == "c39") {
 					reportWithHistory(c, tr, f, hist)
 					return false
 				}
-				if tr.Kind == "reader" || tr.Kind == "addon" || tr.Kind == "c128" || tr.Kind == "c93" {
+				if tr.Kind == "reader" || tr.Kind == "addon" || tr.Kind == "c128" || tr.Kind == "c93" || tr.Kind == "c39" {
 					if len(hist) < 400 {
 						cp := *tr
 						hist = append(hist, &cp)
@@ -1155,8 +1175,41 @@ func C10() *kit.Spec {
 					}
 				}
 			case "char":
-				kind := []string{"c128", "c93"}[r.Intn(2)]
+				kind := []string{"c128", "c93", "c128", "c93", "c39"}[r.Intn(5)]
 				n := r.Range(1, 14)
+				if kind == "c39" {
+					// Code 39 read with the optional modulo-43 check character switched on
+					// (plain and extended mode); symbols of 0, 1, 2 ... data characters
+					n = r.Range(0, 12)
+					sym := []string{"code39", "code39ext"}[r.Intn(2)]
+					var vals []int
+					for i := 0; i < n; i++ {
+						if sym == "code39ext" && r.Chance(3, 4) {
+							vals = append(vals, r.Intn(39)) // no shift characters: plain text
+						} else {
+							vals = append(vals, r.Intn(43))
+						}
+					}
+					vals = append(vals, ref.Code39Check(vals))
+					scale := 0
+					if r.Chance(1, 3) {
+						scale = r.Range(1, 3)
+					}
+					if !do(&Trace10{Kind: "c39", Sym: sym, Vals: vals, Pos: -1, Scale: scale}, true) {
+						return
+					}
+					for pos := 0; pos < len(vals); pos++ {
+						for v := 0; v < 43; v++ {
+							if v == vals[pos] {
+								continue
+							}
+							if !do(&Trace10{Kind: "c39", Sym: sym, Vals: vals, Pos: pos, Repl: v, Scale: scale}, true) {
+								return
+							}
+						}
+					}
+					return
+				}
 				if r.Chance(1, 3) {
 					n = r.Range(15, 70) // beyond one and two cycles of the Code 93 weights (20 / 15)
 				}
